@@ -16,9 +16,18 @@ Gen/Consts.vos Gen/Consts.vok Gen/Consts.required_vos: Gen/Consts.v
 Gen/Enums.vo Gen/Enums.glob Gen/Enums.v.beautified Gen/Enums.required_vo: Gen/Enums.v 
 Gen/Enums.vio: Gen/Enums.v 
 Gen/Enums.vos Gen/Enums.vok Gen/Enums.required_vos: Gen/Enums.v 
+Gen/HyperVLits.vo Gen/HyperVLits.glob Gen/HyperVLits.v.beautified Gen/HyperVLits.required_vo: Gen/HyperVLits.v 
+Gen/HyperVLits.vio: Gen/HyperVLits.v 
+Gen/HyperVLits.vos Gen/HyperVLits.vok Gen/HyperVLits.required_vos: Gen/HyperVLits.v 
 Gen/Layouts.vo Gen/Layouts.glob Gen/Layouts.v.beautified Gen/Layouts.required_vo: Gen/Layouts.v Base/Layout.vo
 Gen/Layouts.vio: Gen/Layouts.v Base/Layout.vio
 Gen/Layouts.vos Gen/Layouts.vok Gen/Layouts.required_vos: Gen/Layouts.v Base/Layout.vos
+Spec/HyperV.vo Spec/HyperV.glob Spec/HyperV.v.beautified Spec/HyperV.required_vo: Spec/HyperV.v 
+Spec/HyperV.vio: Spec/HyperV.v 
+Spec/HyperV.vos Spec/HyperV.vok Spec/HyperV.required_vos: Spec/HyperV.v 
+Model/HyperV.vo Model/HyperV.glob Model/HyperV.v.beautified Model/HyperV.required_vo: Model/HyperV.v Base/Plan.vo Base/Layout.vo Base/Table.vo Gen/Consts.vo Gen/Layouts.vo Gen/Enums.vo Gen/HyperVLits.vo
+Model/HyperV.vio: Model/HyperV.v Base/Plan.vio Base/Layout.vio Base/Table.vio Gen/Consts.vio Gen/Layouts.vio Gen/Enums.vio Gen/HyperVLits.vio
+Model/HyperV.vos Model/HyperV.vok Model/HyperV.required_vos: Model/HyperV.v Base/Plan.vos Base/Layout.vos Base/Table.vos Gen/Consts.vos Gen/Layouts.vos Gen/Enums.vos Gen/HyperVLits.vos
 Model/Vhd.vo Model/Vhd.glob Model/Vhd.v.beautified Model/Vhd.required_vo: Model/Vhd.v Base/Arith.vo Base/Plan.vo Base/Table.vo Gen/Consts.vo
 Model/Vhd.vio: Model/Vhd.v Base/Arith.vio Base/Plan.vio Base/Table.vio Gen/Consts.vio
 Model/Vhd.vos Model/Vhd.vok Model/Vhd.required_vos: Model/Vhd.v Base/Arith.vos Base/Plan.vos Base/Table.vos Gen/Consts.vos
@@ -28,3 +37,6 @@ Proofs/Vhd.vos Proofs/Vhd.vok Proofs/Vhd.required_vos: Proofs/Vhd.v Base/Arith.v
 Props/C04.vo Props/C04.glob Props/C04.v.beautified Props/C04.required_vo: Props/C04.v Base/Plan.vo Base/Table.vo Model/Vhd.vo Proofs/Vhd.vo
 Props/C04.vio: Props/C04.v Base/Plan.vio Base/Table.vio Model/Vhd.vio Proofs/Vhd.vio
 Props/C04.vos Props/C04.vok Props/C04.required_vos: Props/C04.v Base/Plan.vos Base/Table.vos Model/Vhd.vos Proofs/Vhd.vos
+Props/C17.vo Props/C17.glob Props/C17.v.beautified Props/C17.required_vo: Props/C17.v Base/Plan.vo Model/HyperV.vo Spec/HyperV.vo
+Props/C17.vio: Props/C17.v Base/Plan.vio Model/HyperV.vio Spec/HyperV.vio
+Props/C17.vos Props/C17.vok Props/C17.required_vos: Props/C17.v Base/Plan.vos Model/HyperV.vos Spec/HyperV.vos
